@@ -159,6 +159,24 @@ def explore(run):
             # 5. partial caller list on a single file (parse_xml does not filter files)
             for nm in list(files)[:1]:
                 d, paths = P.write_set(sc, "p%d" % i, {nm: files[nm]})
+                # the list argument left out altogether, before and after another document was parsed the same way: the returned list
+                # holds the OPC UA namespace and this document's URIs — not those of whatever was parsed earlier in the process
+                try:
+                    from opcua_tools.nodeset_parser import parse_xml as _parse_xml
+                    other = ('<?xml version="1.0" encoding="utf-8"?>\n<UANodeSet xmlns="http://opcfoundation.org/UA/2011/03/UANodeSet.xsd"><NamespaceUris><Uri>urn:c03:other:%d</Uri></NamespaceUris>'
+                             '<Aliases/><UAObject NodeId="ns=1;i=1" BrowseName="1:o"><DisplayName>o</DisplayName></UAObject></UANodeSet>' % i)
+                    d2, paths2 = P.write_set(sc, "q%d" % i, {"other.xml": other})
+                    first = list(_parse_xml(paths[0])["namespaces"])
+                    mid = list(_parse_xml(paths2[0])["namespaces"])
+                    again = list(_parse_xml(paths[0])["namespaces"])
+                    run.case({"set": i, "single": nm, "caller": "argument omitted, three calls"}, tag="single:no-list-history")
+                    if first != again or mid != [UA, "urn:c03:other:%d" % i]:
+                        run.violation({"files": {nm: files[nm], "other.xml": other}, "caller": None},
+                                      {"what": "parse_xml(file) without a namespace list: the returned list depends on what was parsed before", "first": first, "other_document": mid, "again": again,
+                                       "call": "opcua_tools.parse_xml(file); parse_xml(other); parse_xml(file)"})
+                        return
+                except Exception:  # noqa: BLE001  (a document the parser rejects is C01's business)
+                    pass
                 for caller in ([UA], [UA, "http://other.example/x"]):
                     io = P.impl_parse_one(paths[0], list(caller))
                     run.case({"set": i, "single": nm, "caller": caller}, tag="single")
